@@ -36,8 +36,14 @@ PROPS = {
             "operand scales are well formed: thresholds strictly increasing, as many rates as thresholds",
             "the law reaches calc() through C08's MarginalRateCalc contract (calc = sum over brackets of rate x part of the base in the bracket) and the sum lemmas",
             "for-loops over a list iterate the list as it was when the loop started (none of the loops here changes an element ahead of the cursor)",
+            "combining: proved for the marginal-rate function (rate of the bracket containing each point); that the tax is the integral of the marginal rate, so that pointwise additivity of rates is additivity of taxes, is mathematics not checked here",
+            "the ghost marginal-rate function of a well-formed scale is introduced by its definition (existence of the bracket containing a point: C08 lemma bracket.count)",
+            "multiply_thresholds / scale_tax_scales: positive factor; add_tax_scale: the added scale has non-negative thresholds (a zero upper threshold reads as no upper bound in combine_bracket); inverse: first threshold 0, rates below 1",
         ],
-        "not_decided": [],
+        "native_standins": "contracts.c09_transforms:NATIVE_STANDINS",
+        "not_decided": ["to_average / to_marginal are not under contract (float('Inf') thresholds are outside the list model): bounded stand-in on the real code only",
+                        "helpers.combine_tax_scales (parameter-node iteration) is not under contract; it only calls add_tax_scale on a scale starting with (0, 0)",
+                        "the decimals option of multiply_thresholds"],
     },
     "C19": {
         "theories": ["file system as a ghost map path -> array; storage view of C17"],
